@@ -275,6 +275,8 @@ class Collector:
                             return ("const", None)  # a bare carried value at a leaf is a carry ("unchanged"), not a read
                         if isinstance(t, tuple) and t and t[0] == "ite":
                             return ("ite", t[1], drop_identity(t[2]), drop_identity(t[3]))
+                        if isinstance(t, tuple) and len(t) == 4 and t[0] == "maybe":
+                            return drop_identity(t[3])  # "whatever it was if the try body raised before the assignment": a carry too
                         return t
                     self.walk(drop_identity(upd), l.cond + ((("inloop", l.id), True), (("endofbody", l.id), True)), l.node)
         return self.obs
@@ -942,7 +944,7 @@ def _literal_values(ctx: Ctx, m, ann) -> list:
     return []
 
 
-def check_partial_scope(ctx: Ctx, r: Rule, roots: list, contracts: Optional[dict] = None) -> None:
+def check_partial_scope(ctx: Ctx, r: Rule, roots: list, contracts: Optional[dict] = None, only_modules: Optional[set] = None) -> None:
     """Every partial operation in the functions reachable from `roots` is discharged by a guard idiom."""
     from .escape import graph
 
@@ -952,6 +954,8 @@ def check_partial_scope(ctx: Ctx, r: Rule, roots: list, contracts: Optional[dict
     for q in sorted(scope):
         g = cg.funcs.get(q)
         if g is None:
+            continue
+        if only_modules is not None and g.module.name not in only_modules:
             continue
         edges = [e for e in cg.callers_of(q) if e.caller in scope and e.rec is not None]
         if edges and all(e.rec.inlined for e in edges) and not any(e.kind == "cha" for e in cg.callers_of(q) if e.caller in scope):
